@@ -118,7 +118,8 @@ JResample(r) ==
                    /\ Clause(i, "C05.resample.count.vertices", ResampleCountOK(v, r.n, o.verts))
                    /\ Clause(i, "C05.resample.closedness", o.closed = o.src_closed)
     ELSE IF r.mode = "spacing_div" THEN
-        /\ Clause(i, "C05.resample.spacing.ok", o.ok)
+        \* (on a curve that doubles back on itself all samples of one of the two admissible layouts may coincide)
+        /\ Clause(i, "C05.resample.spacing.ok", o.ok \/ SpacingDivMayFail(v, r.n, FALSE) \/ (closed /\ SpacingDivMayFail(v, r.n, TRUE)))
         /\ o.ok => /\ Clause(i, "C05.resample.finite", o.finite)
                    /\ Clause(i, "C05.resample.spacing.vertices",
                              ResampleSpacingDivOK(v, r.n, o.verts, FALSE) \/ (closed /\ ResampleSpacingDivOK(v, r.n, o.verts, TRUE)))
